@@ -78,6 +78,11 @@ class LightOblig:
                 self.meta[k] = v
             except (TypeError, ValueError):
                 pass
+        try:
+            self.goal_str = " ".join(o.goal.sexpr().split())[:400]
+            self.n_hyps = len(o.hyps)
+        except Exception:
+            self.goal_str, self.n_hyps = None, None
         self.hyps, self.goal = [], None
 
 
